@@ -266,11 +266,80 @@ def synth_result(s):
                                            unit=XU))
 
 
-def run_remove(c, results, label, with_var=False):
-    """remove_peaks(data without variances, results): output, the input afterwards, and the fitted
-    peak of every result evaluated (by FitResult.eval_peak) on the whole coordinate"""
+class _ReIterable:
+    """an Iterable that is neither a Sequence nor sized: only __iter__ (a fresh generator on every call)"""
+
+    def __init__(self, items):
+        self._items = list(items)
+
+    def __iter__(self):
+        yield from self._items
+
+
+def _always(_):
+    return True
+
+
+def _same(r):
+    return r
+
+
+FORMS = ('tuple', 'iter', 'gen', 'filter', 'map', 'dict_values', 'deque', 'chain', 'iterable_obj')
+
+
+def as_iterable(results, form):
+    """the same sequence of FitResults in another documented `Iterable[FitResult]` form (one-shot iterators are
+    built fresh for every call)"""
+    results = list(results)
+    if form == 'list':
+        return results
+    if form == 'tuple':
+        return tuple(results)
+    if form == 'iter':
+        return iter(results)
+    if form == 'gen':
+        return (r for r in results)
+    if form == 'filter':
+        return filter(_always, results)
+    if form == 'map':
+        return map(_same, results)
+    if form == 'dict_values':
+        return {i: r for i, r in enumerate(results)}.values()
+    if form == 'deque':
+        import collections
+        return collections.deque(results)
+    if form == 'chain':
+        import itertools
+        k = len(results) // 2
+        return itertools.chain(results[:k], results[k:])
+    if form == 'iterable_obj':
+        return _ReIterable(results)
+    raise ValueError(f'unknown iterable form {form!r}')
+
+
+def call_remove(c, results, form, with_var):
     da = build_data(c, with_var=with_var)
     before = da.copy(deep=True)
+    ent = {}
+    try:
+        out = peaks.remove_peaks(da, as_iterable(results, form))
+        ent['exc'] = None
+        ent['out'] = [hx(v) for v in out.values]
+        ent['out_x_same'] = bool(sc.identical(out.coords['x'], before.coords['x']))
+        ent['out_has_var'] = out.variances is not None
+    except Exception as e:      # noqa: BLE001
+        ent['exc'] = {'cls': exc_class(e), 'type': type(e).__name__, 'msg': ascii_msg(e)}
+    ent['input_after'] = [hx(v) for v in da.values]
+    ent['input_identical'] = bool(sc.identical(da, before))
+    return ent
+
+
+def run_remove(c, results, label, with_var=False, forms=()):
+    """remove_peaks(data without variances, results): output, the input afterwards, and the fitted
+    peak of every result evaluated (by FitResult.eval_peak) on the whole coordinate.  `results` is passed as a
+    list and, for every name in `forms`, once more (fresh data, fresh iterable) in that other Iterable form:
+    rr['more'] = [{'form', 'exc'/'out', 'input_after', 'input_identical'}]"""
+    da = build_data(c, with_var=with_var)
     rr = {'label': label, 'with_var': with_var}
     res_rec = []
     for r in results:
@@ -283,17 +352,21 @@ def run_remove(c, results, label, with_var=False):
                 ent['peakvals_err'] = exc_class(e)
         res_rec.append(ent)
     rr['results'] = res_rec
-    try:
-        out = peaks.remove_peaks(da, results)
-        rr['exc'] = None
-        rr['out'] = [hx(v) for v in out.values]
-        rr['out_x_same'] = bool(sc.identical(out.coords['x'], before.coords['x']))
-        rr['out_has_var'] = out.variances is not None
-    except Exception as e:      # noqa: BLE001
-        rr['exc'] = {'cls': exc_class(e), 'type': type(e).__name__, 'msg': ascii_msg(e)}
-    rr['input_after'] = [hx(v) for v in da.values]
-    rr['input_identical'] = bool(sc.identical(da, before))
+    rr.update(call_remove(c, results, 'list', with_var))
+    rr['more'] = [dict(call_remove(c, results, f, with_var), form=f) for f in forms]
     return rr
+
+
+def remove_forms(c, k):
+    """the Iterable forms of the k-th remove_peaks call of a case: c['remove_forms'] is 'all' or a list (of lists)"""
+    f = c.get('remove_forms')
+    if not f:
+        return ()
+    if f == 'all':
+        return FORMS
+    if f and isinstance(f[0], list):
+        return f[k % len(f)]
+    return f
 
 
 def main():
@@ -303,10 +376,10 @@ def main():
         o, results = run_fit(c)
         o['removes'] = []
         if results is not None and c.get('remove_fitted', True):
-            o['removes'].append(run_remove(c, results, 'fitted'))
+            o['removes'].append(run_remove(c, results, 'fitted', forms=remove_forms(c, 0)))
         for k, s in enumerate(c.get('remove_synth') or []):
             o['removes'].append(run_remove(c, [synth_result(r) for r in s['results']], f'synth{k}',
-                                           with_var=s.get('with_var', False)))
+                                           with_var=s.get('with_var', False), forms=remove_forms(c, k + 1)))
         outs.append(o)
     import scipy
     print('RESULT ' + json.dumps({'cases': outs, 'versions': {'scipp': sc.__version__, 'scipy': scipy.__version__,
